@@ -9,6 +9,7 @@ import Driver.Ops.Envelope
 import Driver.Ops.Mx
 import Driver.Ops.Policy
 import Driver.Ops.Pool
+import Driver.Ops.RelaySession
 import Driver.Ops.Proxy
 import Driver.Ops.Relay
 import Driver.Ops.Reply
@@ -32,6 +33,7 @@ def dispatch (line : String) : String :=
   | "mx" :: rest => mxOp rest
   | "policy" :: rest => policyOp rest
   | "pool" :: rest => poolOp rest
+  | "relaysession" :: rest => relaySessionOp rest
   | "proxy" :: rest => proxyOp rest
   | "relay" :: rest => relayOp rest
   | "reply" :: rest => replyOp rest
